@@ -22,6 +22,15 @@ type propCfg struct {
 var propOrder = []string{"C03", "C04", "C05", "C06", "C07", "C08", "C09", "C10", "C11", "C12", "C14", "C15", "C16", "C17", "C18", "C19"}
 
 var props = map[string]propCfg{
+	"C03": {
+		level: "exploration",
+		rule: "order: one (pattern, message, bindings) triple per run from a grammar biased to order-sensitive shapes (one variable at several keys with structured values that partially match each other, property variables with siblings nested beside a merely failing key, arrays with one variable among structured and scalar members, optional and inequality variables, pre-bound variables); every map iteration inside match.go is permuted independently - all combinations enumerated depth-first up to 96 per triple, 12 tape-sampled ones beyond; arguments snapshotted (canonical JSON + container identity), results mutated; concurrent: 2-6 tasks x 1-3 calls on the same objects under the serial scheduler with the race monitor; distinct = distinct triples (x schedule hash); non-trivial = at least two iteration orders / at least one scheduling choice",
+		parts: []part{
+			{name: "order", engine: "core", race: false, quick: 8000, thorough: 600000},
+			{name: "concurrent", engine: "core", race: true, quick: 1500, thorough: 60000},
+		},
+		comps: []string{"real: match.Match (instrumented copy: every map range goes through the map-order seam)", "simulated: map iteration order, goroutine scheduling; race detector as happens-before monitor"},
+	},
 	"C04": {
 		level: "exploration",
 		rule: "each run: one tape-generated specification (2-5 nodes, ordered branches over a small pattern/message vocabulary, guards, ECMAScript and native actions from the deterministic action language with injected failures, @var targets, every error-routing mode) and 4-11 (state, pending message) trials; every Spec.Step result is compared with the reference machine; distinct = distinct sequences of (reference rule, moved, consumed, #emitted); non-trivial = at least one trial moved the machine or was a documented error",
@@ -65,6 +74,31 @@ var props = map[string]propCfg{
 		rule: "each run: a generated program (native, ECMAScript and stub actions; guards that reject or fail), a start state carrying permanent bindings, a history of 1-6 messages; on every stride that moved, each '!' binding of From must be in To with an equal value; distinct = distinct stride-outcome sequences; non-trivial = at least one stride checked",
 		parts: []part{{name: "", engine: "core", quick: 6000, thorough: 400000}},
 		comps: []string{"real: core.Spec.Compile/Step/Walk, match.Match, interpreters/ecmascript (goja) - instrumented copies with the map-order seam", "reference: /verif/ref machine + mini-matcher (written from the documentation)", "injected: action/guard failures (throw, bad return, unserialisable emit, null, stub interpreter results), map iteration orders"},
+	},
+	"C10": {
+		level: "exploration",
+		rule: "each run: one probe program and 1-3 polluter programs (random subsets of 16 attacks on bindings, globals, prototypes, built-ins, environment members, step properties), a plan of 2-7 executions ending in a probe, with or without precompiled programs; sequence: executed in order; concurrent: every execution is a task, interleaved at tick() yields under the serial scheduler, race monitor on; distinct = distinct (plan, attack sets, schedule hash)",
+		parts: []part{
+			{name: "sequence", engine: "core", race: false, quick: 3000, thorough: 200000},
+			{name: "concurrent", engine: "core", race: true, quick: 700, thorough: 40000},
+		},
+		comps: []string{"real: interpreters/ecmascript.Interpreter Compile/Exec on goja (instrumented copy: yields around the watcher goroutine)", "simulated: goroutine scheduling, script progress via the tick seam; race detector as happens-before monitor", "expected probe observations are constants of a clean runtime, not a baseline taken from the (possibly polluted) process"},
+	},
+	"C11": {
+		level: "exploration",
+		rule: "each run: 1-8 executions (7 script shapes: loops, recursion, array and property churn, a terminating script, emit-then-loop) via Interpreter.Exec, Spec.Step or Spec.Walk under each error-routing mode, deadlines from already expired to 300 simulated ms or cancel() issued inside tick N<=12, tick lengths 1/3/7 simulated ms, all as tasks under the serial scheduler with the simulated clock; distinct = distinct (execution plans, schedule hash)",
+		parts: []part{{name: "", engine: "core", race: true, quick: 1200, thorough: 60000}},
+		comps: []string{"real: interpreters/ecmascript (goja runtime, watcher goroutine, context handling), core.Step/Walk error routing", "simulated: clock (testing/synctest), script progress (tick seam: a host function that sleeps simulated time and yields), goroutine scheduling"},
+		assum: []string{"CPU time of interpreted code is modelled by explicit tick() calls; a script that never calls tick() cannot consume simulated time and is not generated"},
+	},
+	"C12": {
+		level: "exploration",
+		rule: "shared: one generated compiled spec, 2-6 walker tasks with their own states and 1-3 messages, results compared with the same walks done alone; swap: an UpdatableSpec holding version A or B (every action tags its emissions), 2-5 walkers x 1-4 calls and a swapper task issuing 1-6 swaps, each call must equal that call under A alone or under B alone; serial scheduler with yields at Step/Walk/consider/try/Exec entries, race monitor on; distinct = distinct schedule hashes; non-trivial = at least one scheduling choice",
+		parts: []part{
+			{name: "shared", engine: "core", race: true, quick: 800, thorough: 40000},
+			{name: "swap", engine: "core", race: true, quick: 800, thorough: 40000},
+		},
+		comps: []string{"real: core.Spec.Walk/Step, core.UpdatableSpec, match, ecmascript interpreter - instrumented copies", "simulated: goroutine scheduling; race detector as happens-before monitor"},
 	},
 	"C17": {
 		level: "exploration",
